@@ -19,15 +19,17 @@ CONSTANTS
   ApiNames,     \* names used by NewRoot / Add
   MaxCalls,     \* bound on the history length
   MaxNodes,     \* bound on the number of nodes ever created
-  Kinds,        \* operation kinds: subset of {"text","tree","walk"}
+  Kinds,        \* operation kinds: subset of {"text","tree","walk","verify","mkdir"}
   LastBy,       \* "index" (as built) | "identity" (repaired)
   ResetIdx,     \* TRUE: every operation resets the package counter (as built)
   Interleave,   \* TRUE: any interleaving of build calls and operations (C13); FALSE: build, then operations (C03)
   OpsAtEnd,     \* Interleave = FALSE: how many operations may follow the build phase
-  BadArgs       \* TRUE: operations are also tried on nil and on non-root nodes
+  BadArgs,      \* TRUE: operations are also tried on nil and on non-root nodes
+  Iters         \* TRUE: an iterator (WalkIterFromRoot) may be created at one point of the history and ranged over later
 
-VARIABLES store, idx, hist, res, exp
-avars == <<store, idx, hist, res, exp>>
+\* iters: the iterator values the program holds: [root, snap (what a walk gave when it was created)]
+VARIABLES store, idx, hist, res, exp, iters
+avars == <<store, idx, hist, res, exp, iters>>
 
 None == [k |-> "none", err |-> "", rows |-> <<>>, forest |-> <<>>, walk |-> <<>>, id |-> 0]
 
@@ -36,7 +38,7 @@ Call(op, name, p, kind) == [op |-> op, name |-> name, p |-> p, kind |-> kind]
 OpDone == \E i \in 1..Len(hist) : hist[i].op = "Op"
 NOps == Cardinality({i \in 1..Len(hist) : hist[i].op = "Op"})
 
-Init == store = <<>> /\ idx = 0 /\ hist = <<>> /\ res = None /\ exp = None
+Init == store = <<>> /\ idx = 0 /\ hist = <<>> /\ res = None /\ exp = None /\ iters = <<>>
 
 NewRoot(nm) ==
   /\ Len(store) < MaxNodes
@@ -46,6 +48,7 @@ NewRoot(nm) ==
   /\ hist' = Append(hist, Call("NewRoot", nm, 0, ""))
   /\ res' = [None EXCEPT !.k = "node", !.id = Len(store) + 1]
   /\ exp' = res'
+  /\ UNCHANGED iters
 
 \* Add on an existing child name returns that child and changes nothing
 Add(p, nm) ==
@@ -61,6 +64,7 @@ Add(p, nm) ==
           /\ res' = [None EXCEPT !.k = "node", !.id = Len(store) + 1]
   /\ hist' = Append(hist, Call("Add", nm, p, ""))
   /\ exp' = res'
+  /\ UNCHANGED iters
 
 \* the code-shaped result of an operation of `kind` on root r
 CodeResult(kind, r) ==
@@ -68,6 +72,7 @@ CodeResult(kind, r) ==
     [] kind = "tree" -> [None EXCEPT !.k = "tree", !.forest = <<TreeOf(store, r)>>]
     [] kind = "walk" -> [None EXCEPT !.k = "walk", !.walk = CodeWalk(store, <<r>>, LastBy)]
     [] kind = "verify" -> [None EXCEPT !.k = "verr"]      \* verify against a directory that does not exist: an error, no state
+    [] kind = "mkdir" -> [None EXCEPT !.k = "mkdir", !.forest = <<TreeOf(store, r)>>]   \* into a fresh directory: exactly the tree (Fs.tla says how)
 
 \* the declarative result: a function of the tree's shape and names alone
 RuleResult(kind, r) ==
@@ -76,12 +81,13 @@ RuleResult(kind, r) ==
     [] kind = "tree" -> [None EXCEPT !.k = "tree", !.forest = <<t>>]
     [] kind = "walk" -> [None EXCEPT !.k = "walk", !.walk = RootWalk(t)]
     [] kind = "verify" -> [None EXCEPT !.k = "verr"]
+    [] kind = "mkdir" -> [None EXCEPT !.k = "mkdir", !.forest = <<t>>]
 
 \* validateTreeRoot, then idxCounter.reset(), then the operation
 Op(kind, n) ==
   /\ (IF Interleave THEN TRUE ELSE NOps < OpsAtEnd)
   /\ hist' = Append(hist, Call("Op", <<>>, n, kind))
-  /\ UNCHANGED store
+  /\ UNCHANGED <<store, iters>>
   /\ IF n = 0 THEN
         /\ res' = [None EXCEPT !.k = "err", !.err = "ErrNilNode"] /\ exp' = res' /\ UNCHANGED idx
      ELSE IF store[n].hier # 1 THEN
@@ -91,11 +97,31 @@ Op(kind, n) ==
         /\ res' = CodeResult(kind, n)
         /\ exp' = RuleResult(kind, n)
 
+\* it := WalkIterFromRoot(root): nothing is validated, reset or assembled yet (the code does all of it
+\* inside the function it returns)
+Open(n) ==
+  /\ Iters /\ store[n].hier = 1
+  /\ hist' = Append(hist, Call("Open", <<>>, n, ""))
+  /\ iters' = Append(iters, [root |-> n, snap |-> RootWalk(TreeOf(store, n))])
+  /\ res' = None /\ exp' = None
+  /\ UNCHANGED <<store, idx>>
+
+\* for wn, err := range it: the walk of the tree AS IT IS NOW (an iterator may be ranged over repeatedly)
+Range(i) ==
+  /\ Iters
+  /\ hist' = Append(hist, Call("Range", <<>>, i, ""))
+  /\ idx' = IF ResetIdx THEN 0 ELSE idx
+  /\ res' = CodeResult("walk", iters[i].root)
+  /\ exp' = RuleResult("walk", iters[i].root)
+  /\ UNCHANGED <<store, iters>>
+
 Next ==
   /\ Len(hist) < MaxCalls
   /\ \/ \E nm \in ApiNames : NewRoot(nm)
      \/ \E p \in 1..Len(store), nm \in ApiNames : Add(p, nm)
      \/ \E k \in Kinds, n \in (IF BadArgs THEN 0..Len(store) ELSE {i \in 1..Len(store) : store[i].hier = 1}) : Op(k, n)
+     \/ \E n \in 1..Len(store) : Open(n)
+     \/ \E i \in 1..Len(iters) : Range(i)
 
 Spec == Init /\ [][Next]_avars
 
